@@ -7,6 +7,8 @@ use std::panic::{catch_unwind, AssertUnwindSafe};
 use serde_json::{json, Value};
 
 mod ops;
+#[cfg(feature = "signatures")]
+mod ops_signatures;
 #[cfg(feature = "common")]
 mod ops_common;
 #[cfg(feature = "stateres")]
